@@ -407,3 +407,76 @@ crate::harness! {
     #[kani::unwind(6)]
     fn c10_reseed_bits64() { reseed_bits::<64>(); }
 }
+
+// ---- C08: AnnotationScheduler (feature `annotation` off) passes decisions through unchanged ---------------------
+
+crate::harness! {
+    #[kani::unwind(4)]
+    fn c08_annotation_wrapper_transparent() {
+        use shuttle_schedulers::AnnotationScheduler;
+        let t0 = mk_task(0);
+        let t2 = mk_task(2);
+        let exec_some: bool = kani::any();
+        let draw_val: u64 = kani::any();
+        unsafe { SPY = SpyRec { n: 0, first: 9, last: 9, cur: None, y: false, ret: None, asked: 0, draws: 0, execs: 0 } };
+        let mut m = AnnotationScheduler::new(Spy { draw_val, exec_some });
+        let e = m.new_execution();
+        assert!(e.is_some() == exec_some && unsafe { SPY.execs } == 1, "C08: annotation wrapper changed new_execution");
+        std::mem::forget(e);
+        let two: bool = kani::any();
+        let cur_some: bool = kani::any();
+        let cur_id: usize = kani::any();
+        kani::assume(cur_id <= 2);
+        let cur = if cur_some { Some(TaskId::from(cur_id)) } else { None };
+        let y: bool = kani::any();
+        let got = if two {
+            let r: [&Task; 2] = [&t0, &t2];
+            m.next_task(&r, cur, y)
+        } else {
+            let r: [&Task; 1] = [&t2];
+            m.next_task(&r, cur, y)
+        };
+        let rec = unsafe { SPY };
+        assert!(rec.asked == 1, "C08: annotation wrapper did not ask the inner scheduler exactly once");
+        assert!(rec.n == if two { 2 } else { 1 } && rec.first == if two { 0 } else { 2 } && rec.last == 2,
+            "C08: annotation wrapper changed the task list");
+        assert!(rec.cur == cur.map(|x| x.into()) && rec.y == y, "C08: annotation wrapper changed current / is_yielding");
+        assert!(got.map(|x| -> usize { x.into() }) == rec.ret, "C08: annotation wrapper changed the scheduler's answer");
+        let d = m.next_u64();
+        assert!(d == draw_val && unsafe { SPY.draws } == 1, "C08: annotation wrapper changed a random draw");
+        kani::cover!(got.is_none(), "inner scheduler stopped the execution");
+        kani::cover!(two && got.is_some(), "two tasks offered");
+        std::mem::forget(m);
+        std::mem::forget(t0);
+        std::mem::forget(t2);
+    }
+}
+
+// ---- C01: replay never substitutes a different task for a recorded one that is not runnable -------------------
+
+crate::harness! {
+    #[kani::unwind(6)]
+    fn c01_replay_refuses_missing_task() {
+        let t0 = mk_task(0);
+        let t1 = mk_task(1);
+        let t2 = mk_task(2);
+        // recorded: task `want`; offered: the two other tasks
+        let want: usize = kani::any();
+        kani::assume(want <= 2);
+        let mut steps = Vec::with_capacity(1);
+        steps.push(ScheduleStep::Task(TaskId::from(want)));
+        let mut r = ReplayScheduler::new_from_schedule(Schedule { seed: 3, steps });
+        r.set_allow_incomplete();
+        let e = r.new_execution();
+        std::mem::forget(e);
+        let got = match want {
+            0 => { let o: [&Task; 2] = [&t1, &t2]; r.next_task(&o, None, false) }
+            1 => { let o: [&Task; 2] = [&t0, &t2]; r.next_task(&o, None, false) }
+            _ => { let o: [&Task; 2] = [&t0, &t1]; r.next_task(&o, None, false) }
+        };
+        assert!(got.is_none(), "C01: replay scheduled a task other than the recorded one");
+        kani::cover!(want == 1, "recorded task 1 missing from the offered list");
+        std::mem::forget(r);
+        std::mem::forget((t0, t1, t2));
+    }
+}
